@@ -1,9 +1,13 @@
 #!/bin/bash
-# Run the repository test-suite on every seeded change that has no "tests" confirmation yet (sequentially, niced).
+# Run the repository test-suite on every seeded change that has no "tests" confirmation yet.
+# usage: tools/seed_tests_all.sh [k n]   -> handles the seeds whose index % n == k (run several in parallel)
 cd "$(dirname "$(readlink -f "$0")")/.."
+k=${1:-0}; n=${2:-1}; i=0
 for d in seeded/*/; do
-  n=$(basename $d)
+  name=$(basename $d); i=$((i+1))
+  [ $((i % n)) -eq $k ] || continue
+  [ -f $d/meta.json ] || continue
   if ! grep -q '"tests"' $d/meta.json 2>/dev/null; then
-    nice -n 5 python3 tools/seed_eval.py $n tests
+    nice -n 5 python3 tools/seed_eval.py $name tests
   fi
 done
